@@ -22,7 +22,9 @@ pub mod c21;
 pub mod c22;
 pub mod c26;
 pub mod c28;
+pub mod c19;
 pub mod c32;
+pub mod c34;
 pub mod c33;
 pub mod c36;
 pub mod c37;
@@ -59,6 +61,8 @@ pub fn all() -> Vec<CheckDef> {
         CheckDef { id: "C37", shards: four, run: c37::run, replay: Some(c37::replay) },
         CheckDef { id: "C32", shards: one, run: c32::run, replay: Some(c32::replay) },
         CheckDef { id: "C33", shards: one, run: c33::run, replay: Some(c33::replay) },
+        CheckDef { id: "C19", shards: one, run: c19::run, replay: Some(c19::replay) },
+        CheckDef { id: "C34", shards: one, run: c34::run, replay: Some(c34::replay) },
         CheckDef { id: "C28", shards: one, run: c28::run, replay: Some(c28::replay) },
     ]
 }
